@@ -170,4 +170,40 @@ Section Acct.
     eapply acct_app; [apply acct_free_buf|].
     apply (acct_app _ [AFree 24] (40%N :: R) [AFree 40]); apply acct_free.
   Qed.
+
+  (* fail_unchanged / infallible, read off the operation theorems *)
+  Theorem create_fail setrc ptrs o : small (length ptrs) ->
+    exists oh ns o' ev,
+      ptrheap_create std_tc std_hc cmp setrc ptrs o = Ok (oh, ns, o', ev) /\
+      (refused ev = true <-> oh = None) /\ (oh = None -> ns = []).
+  Proof.
+    intros Hs. destruct (create_spec cmp le CO setrc ptrs o Hs) as (oh & ns & o' & ev & E & Hn & Hsome).
+    exists oh, ns, o', ev. split; auto. split; [split|].
+    - intros Hr. destruct oh as [h|]; auto. destruct (Hsome h eq_refl) as (Hf & _). congruence.
+    - intros ->. apply Hn. auto.
+    - intros H. apply Hn. auto.
+  Qed.
+
+  Theorem add_fail setrc h x o : heap_inv le h -> small (length (elems h)) ->
+    exists ok h' ns o' ev,
+      ptrheap_add std_tc std_hc cmp setrc h x o = Ok (ok, h', ns, o', ev) /\
+      (refused ev = true <-> ok = false) /\ (ok = false -> h' = h /\ ns = []).
+  Proof.
+    intros HI Hs. destruct (add_spec cmp le CO setrc h x o HI Hs) as (ok & h' & ns & o' & ev & E & Hf & Hok).
+    exists ok, h', ns, o', ev. split; auto. split; [split|].
+    - intros Hr. destruct ok; auto. destruct (Hok eq_refl) as (Hr' & _). congruence.
+    - intros ->. apply Hf. auto.
+    - intros H. destruct (Hf H) as (A & B & _). auto.
+  Qed.
+
+  Theorem delete_infallible setrc h rc : heap_inv le h -> small (length (elems h)) -> rc < nelems h ->
+    exists h' ns o' ev,
+      ptrheap_delete std_tc std_hc cmp setrc h rc all_refuse = Ok (h', ns, o', ev) /\
+      heap_inv le h' /\ Permutation (el (elems h) rc :: elems h') (elems h) /\
+      (setrc = true -> forall pos, handles pos h -> handles (apply_notes pos ns) h').
+  Proof.
+    intros HI Hs Hrc.
+    destruct (delete_spec cmp le CO setrc h rc all_refuse HI Hs Hrc) as (h' & ns & o' & ev & E & A & B & C & _).
+    exists h', ns, o', ev. auto.
+  Qed.
 End Acct.
